@@ -89,7 +89,23 @@ def run_harness(name, args=(), stdin_lines=None, timeout=3600, env=None):
     return out
 
 
-def run_harness_stream(name, cases, per_case_timeout=20, env=None):
+def run_harness_stream(name, cases, per_case_timeout=20, env=None, confirm_timeout=240):
+    """see _run_harness_stream; an input that timed out is given once more, ALONE, a much longer limit (the machine may simply be
+    busy): only if it still does not answer is it reported as {"timeout": True}; otherwise its answer is used and marked "slow"."""
+    res = _run_harness_stream(name, cases, per_case_timeout, env)
+    for i, r in enumerate(res):
+        if isinstance(r, dict) and r.get("timeout") and confirm_timeout:
+            again = _run_harness_stream(name, [cases[i]], confirm_timeout, env)[0]
+            if isinstance(again, dict) and not again.get("timeout"):
+                if isinstance(again, dict):
+                    again["slow"] = True
+                res[i] = again
+            else:
+                res[i] = {"timeout": True, "confirmed_alone_after_s": confirm_timeout}
+    return res
+
+
+def _run_harness_stream(name, cases, per_case_timeout=20, env=None):
     """Like run_harness, but the binary answers line by line and each input gets its own time limit.
     Returns a list aligned with cases; an input that exceeds the limit (or kills the process) yields
     {"timeout": True} / {"crashed": rc} and the remaining inputs are given to a fresh process."""
